@@ -105,7 +105,7 @@ RULE = ("per element configuration (the 10 elements with several constructor set
         "it does not select: numbers, strings, None, floats, tuples, lists, bytes, bare dicts, foreign objects, pairs "
         "with unrelated context, pairs with disabling context such as output.write/to_csv False, histograms of the "
         "wrong kind) are drawn from fixed palettes with ctx.rng; (1) every palette value once with a value of the "
-        "other kind, both orders; (2) for drawn (A, B) with |A|,|B| <= 3 (1-2 draws per size pair in quick, 12 in "
+        "other kind, both orders; (2) for drawn (A, B) with |A|,|B| <= 3 (1-2 draws per size pair in quick, 30 in "
         "thorough) ALL interleaving patterns are enumerated (exhaustive up to 3+3); (3) thorough adds random "
         "patterns with |A|,|B| <= 6.  Quick keeps a cross of the 54 RunIf selector x inner-sequence settings. "
         "Non-trivial: at least one value of A and one of B in the flow.")
@@ -1598,6 +1598,8 @@ def _pipe_fix(A, ids):
                 c = copy.deepcopy(c)
                 c.setdefault("output", {})["filename"] = "auto%d" % ids.next()
                 v = dict(v, c=c)
+            else:
+                continue        # `output` is not a dictionary: no way to give it a name of its own
         out.append(v)
     return out
 
@@ -1625,7 +1627,7 @@ def gen_cases(ctx):
     rng = ctx.rng
     cases = []
     quick = ctx.tier == "quick"
-    draws = 2 if quick else 12
+    draws = 2 if quick else 30
     sizes = [(a, b) for a in range(4) for b in range(4)]
     configs = _configs(ctx.tier)
     if quick:
@@ -1667,7 +1669,7 @@ def gen_cases(ctx):
                     cases.append(_mk_case(el, fs, A, B, pat, rng))
         # 3. longer flows, random interleavings
         if not quick and not real:
-            for _ in range(25):
+            for _ in range(60):
                 ids = _Ids()
                 na, nb = rng.randint(1, 6), rng.randint(1, 6)
                 A = _draw(rng, mk_a(ids, rng), na)
